@@ -170,6 +170,13 @@ func serialiseXMP(c *Ctx, props []xprop, st xmpStyle) []byte {
 	var b bytes.Buffer
 	b.WriteString(st.junk)
 	q := string(st.quote)
+	// after the '=' only a few blanks: that white space lies inside the value's look-ahead window and counts against it
+	inShort := func() string {
+		if st.inTag == nil {
+			return ""
+		}
+		return []string{"", " ", "\n", "\t "}[c.Rng.Intn(4)]
+	}
 	inT := func() string {
 		if st.inTag == nil {
 			return ""
@@ -188,7 +195,7 @@ func serialiseXMP(c *Ctx, props []xprop, st xmpStyle) []byte {
 	}
 	for i, p := range props {
 		if p.array == "" && st.form[i] {
-			b.WriteString(st.pad() + " " + p.prefix + ":" + p.name + inT() + "=" + inT() + q + p.val + q)
+			b.WriteString(st.pad() + " " + p.prefix + ":" + p.name + inT() + "=" + inShort() + q + p.val + q)
 		}
 	}
 	b.WriteString(inT() + ">" + st.pad())
